@@ -240,6 +240,7 @@ func (m *ModSet) merge(o *ModSet) {
 }
 
 func (e *Engine) havocMod(st *State, mod *ModSet) {
+	e.havocAlive(st) // objects allocated in the loop: the allocation clock may have advanced
 	if mod.all {
 		e.havocAllHeap(st)
 	}
@@ -286,8 +287,6 @@ func (e *Engine) havocMod(st *State, mod *ModSet) {
 	if mod.bytes {
 		e.havocBytes(st)
 	}
-	// objects allocated in the loop: the alive set may have grown
-	e.havocAlive(st)
 }
 
 func (e *Engine) havocAlive(st *State) {
@@ -299,6 +298,7 @@ func (e *Engine) havocAlive(st *State) {
 }
 
 func (e *Engine) havocAllHeap(st *State) {
+	e.havocAlive(st)
 	names := map[string]bool{}
 	for n := range st.heap {
 		names[n] = true
@@ -322,7 +322,6 @@ func (e *Engine) havocAllHeap(st *State) {
 	if st.havocAll == "" {
 		st.havocAll = "an uncontracted call or `assigns everything`"
 	}
-	e.havocAlive(st)
 }
 
 // ---------------------------------------------------------------- calls
@@ -598,7 +597,17 @@ func (e *Engine) applyContract(st *State, fc *FuncContract, callee *ssa.Function
 		}
 		e.oblige(st, fmt.Sprintf("requires(%s)#%d", name, i), instr.Pos(), d, e.evalBool(env, c))
 	}
-	// frame
+	// frame (the callee may have allocated: advance the allocation clock first so that havocked
+	// locations are bounded by the post-call time)
+	var locs []Loc
+	if fc.HasAssigns && !fc.AssignsEverything {
+		for _, a := range fc.Assigns {
+			a := a
+			env.clause = &a
+			locs = append(locs, e.evalLoc(env, a.Expr)...)
+		}
+	}
+	e.havocAlive(st)
 	if !fc.HasAssigns || fc.AssignsEverything {
 		if !fc.Pure {
 			e.havocAllHeap(st)
@@ -607,14 +616,10 @@ func (e *Engine) applyContract(st *State, fc *FuncContract, callee *ssa.Function
 			}
 		}
 	} else {
-		for _, a := range fc.Assigns {
-			env.clause = &a
-			for _, loc := range e.evalLoc(env, a.Expr) {
-				e.havocLoc(st, loc)
-			}
+		for _, loc := range locs {
+			e.havocLoc(st, loc)
 		}
 	}
-	e.havocAlive(st) // the callee may have allocated
 	res := e.freshResult(st, sanitize(name), resType)
 	post := mkEnv(pre)
 	e.bindResults(post, res)
@@ -653,6 +658,7 @@ func (e *Engine) unknownCall(st *State, callee *ssa.Function, key, name string, 
 	} else {
 		first = true // dynamic function value
 	}
+	e.havocAlive(st)
 	if first {
 		st.note("first-party call without contract: " + key + " (whole heap havocked)")
 		e.havocAllHeap(st)
@@ -668,7 +674,6 @@ func (e *Engine) unknownCall(st *State, callee *ssa.Function, key, name string, 
 		}
 		e.havocBytesIfAnyBytesArg(st, args, name, false)
 	}
-	e.havocAlive(st)
 	res := e.freshResult(st, sanitize(name), resType)
 	return res
 }
